@@ -1,3 +1,5 @@
 import PropsR.Gen.KernelsReal
+import PropsR.Gen.ReflectorsReal
 import PropsR.C02
+import PropsR.C08
 import PropsR.C16
